@@ -57,7 +57,9 @@ theorem DFA.simulateFrom_spec {D : DFA σ τ} (hv : D.valid = true) (w : List τ
     obtain ⟨rest, hrest, hhead, hchain, hlen, hlast⟩ :=
       ih (fun b hb => hw b (List.mem_cons_of_mem _ hb)) (D.next q a) (DFA.valid_next_mem hv hq ha)
     refine ⟨(q, a :: w) :: rest, ?_, rfl, ?_, ?_, ?_⟩
-    · simp only [DFA.simulateFrom, DFA.step_eq_ok hv hq ha, hrest]
+    · simp only [DFA.simulateFrom, DFA.step_eq_ok hv hq ha]
+      show (do let rest ← D.simulateFrom (D.next q a) w; pure ((q, a :: w) :: rest)) = _
+      rw [hrest]
       rfl
     · obtain ⟨rest', rfl⟩ := List.head?_eq_some_iff.mp hhead
       exact ChainOf.cons ⟨a, rfl, DFA.valid_lookup_next hv hq ha⟩ hchain
@@ -231,7 +233,7 @@ theorem NFA.rebuild_spec {N : NFA σ τ} (hv : N.valid = true) (s : Sched) {rev 
     intro front word result hfront hres
     obtain ⟨p, hp, hpath⟩ := NFA.findEpsPath_complete hv s [N.q0] front (hC front hfront)
     obtain ⟨hmem, hinv⟩ := hres.extend hpath
-    refine ⟨_, ?_, ?_⟩
+    refine ⟨p.dropLast.map (fun r => (r, word)) ++ result, ?_, ?_⟩
     · simp only [NFA.rebuild, hp]
       rfl
     · rw [List.mem_singleton] at hmem
@@ -264,7 +266,8 @@ theorem NFA.rebuild_spec {N : NFA σ τ} (hv : N.valid = true) (s : Sched) {rev 
     · have : (a :: rev).reverse ++ word = rev.reverse ++ a :: word := by simp
       rw [this]; exact htinv
 
-/-- `rebuild` never fails with a fuel or key error on a valid NFA (for arbitrary arguments, used nowhere else) -/
+/-- everything about `simulate` at once: it returns (no fuel / key / runtime error), what it returns is a valid trace,
+    and it returns a trace exactly for the accepted words -/
 theorem NFA.simulate_spec {N : NFA σ τ} (hv : N.valid = true) (s : Sched) (w : List τ)
     (hw : ∀ a, a ∈ w → a ∈ N.Sigma) :
     ∃ r, N.simulate s w = .ok r ∧ (∀ tr, r = some tr → N.ValidTrace w tr) ∧ (r.isSome = true ↔ N.Accepts w) := by
@@ -337,4 +340,20 @@ theorem NFA.simulate_spec {N : NFA σ τ} (hv : N.valid = true) (s : Sched) (w :
       · intro _; rfl
 
 end
+
+/-! ### examples -/
+
+/-- the witness of the repaired back-pointer defect: `a -ε-> b -ε-> c`, `c -ε-> {b, f}` (an ε-cycle `b ⇄ c`),
+    plus `f -x-> a` so that non-empty words are accepted too, and `f -y-> g` (a dead end) so that some are rejected -/
+def C15.exNFA : NFA String String :=
+  { Q := ["a", "b", "c", "f", "g"], Sigma := ["x", "y"],
+    delta := [(("a", ""), ["b"]), (("b", ""), ["c"]), (("c", ""), ["b", "f"]), (("f", "x"), ["a"]),
+              (("f", "y"), ["g"])],
+    q0 := "a", F := ["f"], eps := "" }
+
+def C15.exDFA : DFA String String :=
+  { Q := ["p", "q"], Sigma := ["0", "1"],
+    delta := [(("p", "0"), "p"), (("p", "1"), "q"), (("q", "0"), "q"), (("q", "1"), "p")],
+    q0 := "p", F := ["q"] }
+
 end Gamba
